@@ -165,6 +165,16 @@ def ls_rows(spec):
         for sp in ('spsr_svc', 'spsr_abt', 'spsr_und', 'spsr_irq', 'spsr_fiq', 'spsr_mon'):
             if rng.random() < 0.5:
                 setattr(r, sp, getattr(r, sp) ^ (1 << 9))
+        if ctx.prot == 'mmu':
+            # short-descriptor tables of the harness, Fast Context Switch Extension in use: a fault raised by the alignment
+            # POLICY (MemA, or MemU under SCTLR.A) reports the modified virtual address like every other abort does
+            r.sctlr.a = 1 if rng.random() < 0.5 else 0
+            for n in range(13):
+                if rng.random() < 0.7:
+                    r.set(n, rng.choice([0x100, 0x1000, 0x200100, 0x201100, 0x210100, 0x2000F0]) + rng.randrange(8))
+            if int(desc.get('code', '0x10000'), 16) >= 0x02000000 and rng.random() < 0.7:
+                r.fcseidr.value = rng.choice([1, 3, 0x40, 0x7F]) << 25
+                desc['fcse_pid'] = r.fcseidr.value >> 25
         if ctx.prot == 'mmu-ld':
             # long-descriptor tables for the PL1&0 AND the Hyp regime: in Hyp mode the alignment policy is HSCTLR.A's, not
             # SCTLR.A's - both are drawn, independently; addresses inside the Normal-memory windows of the layout
@@ -176,8 +186,9 @@ def ls_rows(spec):
             desc['hsctlr_a'] = r.hsctlr.a
             desc['sctlr_a'] = r.sctlr.a
     return L.run_rows(ID, spec, LS_FAMILY, ctxs=[('v7-pmsa-r', 'off'), ('v6-pmsa-sec', 'off'), ('v7-vmsa-virt', 'off'), ('v5-pmsa', 'off'),
-                                                 ('v7-vmsa-virt', 'mmu-ld')],
-                      regs_fn=lambda rng: [scen.reg_value(rng) for _ in range(15)], prep_kw=lambda rng: dict(e=rng.randrange(2)),
+                                                 ('v7-vmsa-virt', 'mmu-ld'), ('v7-vmsa-sec', 'mmu')],
+                      regs_fn=lambda rng: [scen.reg_value(rng) for _ in range(15)],
+                      prep_kw=lambda rng: dict(e=rng.randrange(2), **({'code': rng.choice([0xFFFFF100, 0xFFFFF200, 0xFFFFF802])} if rng.random() < 0.3 else {})),
                       after=after, solve_addr=0.15)
 
 
